@@ -49,6 +49,7 @@ def dict_items(e: ast.AST) -> Optional[Dict[str, ast.AST]]:
     return None
 
 
+HAVOC_LOOPS = [False]        # set through enumerate_paths(loops="havoc")
 NOT_NONE: set = set()      # names the caller declares never None (set through enumerate_paths(not_none=...))
 
 
@@ -136,7 +137,9 @@ def resolve(e: ast.AST, env: Dict[str, ast.AST]) -> ast.AST:
     return _Fold().visit(_Sub(env).visit(copy.deepcopy(e)))
 
 
-def enumerate_paths(body: List[ast.stmt], env: Optional[Dict[str, ast.AST]] = None, limit: int = 256, not_none=()) -> List[Path]:
+def enumerate_paths(body: List[ast.stmt], env: Optional[Dict[str, ast.AST]] = None, limit: int = 256, not_none=(),
+                    loops: str = "opaque") -> List[Path]:
+    HAVOC_LOOPS[0] = loops == "havoc"
     NOT_NONE.clear()
     NOT_NONE.update(not_none)
     paths = [Path(env=dict(env or {}))]
@@ -227,6 +230,19 @@ def _step(s: ast.stmt, p: Path, limit: int) -> List[Path]:
         return [p]
     if isinstance(s, ast.Raise):
         p.exit = "raise"
+        return [p]
+    if isinstance(s, (ast.For, ast.While)) and HAVOC_LOOPS[0]:
+        # a nested loop is kept as one effect; what it binds or stores through is unknown afterwards
+        p.effects.append(s)
+        for n in ast.walk(s):
+            if isinstance(n, ast.Name) and isinstance(n.ctx, (ast.Store, ast.Del)):
+                p.env.pop(n.id, None)
+            if isinstance(n, (ast.Subscript, ast.Attribute)) and isinstance(n.ctx, (ast.Store, ast.Del)):
+                b = n
+                while isinstance(b, (ast.Subscript, ast.Attribute)):
+                    b = b.value
+                if isinstance(b, ast.Name):
+                    p.env.pop(b.id, None)
         return [p]
     p.exit = "opaque"
     p.effects.append(s)
